@@ -31,7 +31,8 @@ SafeInt Converter<SafeInt>::getValue(ptrdiff_t val) {
 
 template<>
 SafeInt Converter<SafeInt>::negate(SafeInt const & val) {
-    return SafeInt(-(val.value() + 1));
+    // -(c + 1), written so that c == PTRDIFF_MAX does not overflow
+    return SafeInt(-1 - val.value());
 }
 
 template<>
